@@ -4,6 +4,8 @@ import json
 claimed = {
  "C07": ("SX", "Exhaustive (preemption-bounded, bound 2 quick / 3 thorough) exploration of every schedule of the real Timeout executor and its timer thread against the scripted function, in 46 placements/durations incl. the exact tie d = limit; layer contract checked on probe records of every execution.",
          "§5 C07"),
+ "C06": ("SX", "Exhaustive exploration (deviation bound 2 quick / 3 thorough, with a happens-before state cache) of 2-4 concurrent sync/async executions, cancellers and standalone API callers through one real bulkhead; the permit release, wait timer and cancellation share a virtual instant so all orders occur; in-flight invariant at every function entry and permit-count probe at quiescence.",
+         "§5 C06"),
 }
 na = {}
 props = [json.loads(l) for l in open('/verif/properties.jsonl')]
